@@ -23,7 +23,8 @@ RULE = (
     "just inside and just outside the boundary: bit widths, cast modes, capacities, attribute / type / namespace names (reserved "
     "words in three letter cases, patterns, near misses, non-ASCII), duplicate names, union arity and padding, void/utf8/byte "
     "placement, deprecated dependencies (direct, arrays, union, response), serialization mode presence/duplication/placement, "
-    "extent values, directive placement/duplication/arguments, versions, port-IDs x root namespace x allow_unregulated. "
+    "extent values, directive placement/duplication/arguments, versions, port-IDs x root namespace x allow_unregulated; several definitions read together: a (deprecated) dependency shared by two users of every "
+    "deprecation status / kind / way of use in both name orders, a definition with a (un)regulated port-ID that is also a dependency of an earlier / later sibling or lives in a lookup root, rule violations in a dependency reached through chains. "
     "Non-trivial iff at least one instance is applied; distinct by canonical hash of (skeleton, instance names)"
 )
 ASSUMPTIONS = [
@@ -377,9 +378,75 @@ def compatible(a, b) -> bool:
     return a[1] != b[1] and frozenset([a[1], b[1]]) not in CONFLICTS
 
 
+# ---------------------------------------------------------------------------------------------------------------
+# rules that concern SEVERAL definitions read together: one dependency object is shared by all its users, and a definition may be
+# reached first as a dependency and only later (or never) as a target
+def multi_cases():
+    kinds = {"struct": ("", "@sealed"), "union": ("@union\nuint8 alt\n", "@sealed"), "delimited": ("", "@extent 64 * 8"), "service": ("", "@sealed\n---\n@sealed")}
+    uses = {"direct": "Old.1.0 o", "array": "Old.1.0[2] o", "vararray": "Old.1.0[<=2] o"}
+    # (a) a (deprecated / live) dependency with two users of every deprecation status, kind and way of use, in both name orders
+    for old_dep in (True, False):
+        for (k1, k2) in itertools.product(kinds, repeat=2):
+            for (u1, u2) in itertools.product(uses, repeat=2):
+                if k1 != k2 and u1 != u2 and (k1, u1) != ("struct", "direct"):
+                    continue  # full product only along the diagonal and against the plain first user
+                for d1, d2 in itertools.product((True, False), repeat=2):
+                    files = {"vnd/Old.1.0.dsdl": ("@deprecated\n" if old_dep else "") + "uint8 v\n@sealed\n"}
+                    for nm, k, u, d in (("Alpha", k1, u1, d1), ("Beta", k2, u2, d2)):
+                        pre, mode = kinds[k]
+                        files["vnd/%s.1.0.dsdl" % nm] = ("@deprecated\n" if d else "") + pre + uses[u] + "\n" + mode + "\n"
+                    valid = not old_dep or (d1 and d2)
+                    yield {"kind": "multi", "family": "shared-dependency", "files": files, "root": "vnd", "valid": valid, "allow": False, "label": [old_dep, k1, u1, d1, k2, u2, d2]}
+    # (b) a definition with a fixed port-ID that is ALSO a dependency of a sibling sorting before / after it, or lives in a lookup root
+    for port, allow in itertools.product((6143, 6144, 7167, 7168, 100), (False, True)):
+        ok = allow or 6144 <= port <= 7167
+        body = "uint8 v\n@sealed\n"
+        for referrer in ("Alpha", "Zulu", None):
+            files = {"vnd/%d.Middle.1.0.dsdl" % port: body}
+            if referrer:
+                files["vnd/%s.1.0.dsdl" % referrer] = "Middle.1.0 m\n@sealed\n"
+            yield {"kind": "multi", "family": "port-of-dependency", "files": files, "root": "vnd", "valid": ok, "allow": allow, "label": [port, allow, referrer, "same-root"]}
+        files = {"lk/%d.Middle.1.0.dsdl" % port: body, "vnd/User.1.0.dsdl": "lk.Middle.1.0 m\n@sealed\n"}
+        yield {"kind": "multi", "family": "port-of-dependency", "files": files, "root": "vnd", "lookups": ["lk"], "valid": ok, "allow": allow, "label": [port, allow, "User", "lookup-root"]}
+        files = {"uavcan/%d.Middle.1.0.dsdl" % port: body, "vnd/User.1.0.dsdl": "uavcan.Middle.1.0 m\n@sealed\n"}
+        yield {"kind": "multi", "family": "port-of-dependency", "files": files, "root": "vnd", "lookups": ["uavcan"], "valid": allow or 7168 <= port <= 8191, "allow": allow, "label": [port, allow, "User", "standard-lookup-root"]}
+    # (c) a broken dependency reached through several users / through a chain: every static rule applies to what is read, wherever it is read from
+    for bad, ok in (("uint65 a\n@sealed\n", False), ("uint8 a\n", False), ("@union\nuint8 a\n@sealed\n", False), ("uint8 a\n@extent 4\n", False), ("uint8 a\n@sealed\n", True)):
+        for chain in (1, 2, 3):
+            files = {"lk/Leaf.1.0.dsdl": bad}
+            prev = "lk.Leaf.1.0"
+            for i in range(chain - 1):
+                files["lk/Mid%d.1.0.dsdl" % i] = "%s x\n@sealed\n" % prev
+                prev = "lk.Mid%d.1.0" % i
+            files["vnd/A.1.0.dsdl"] = "%s x\n@sealed\n" % prev
+            files["vnd/B.1.0.dsdl"] = "%s[<=2] x\n@sealed\n" % prev
+            yield {"kind": "multi", "family": "rule-in-dependency", "files": files, "root": "vnd", "lookups": ["lk"], "valid": ok, "allow": False, "label": [bad, chain]}
+
+
+def check_multi(case, R: engine.Acc):
+    R.case([case["family"], case["label"]], nontrivial=True, sample=(case["family"] == "shared-dependency" and not case["valid"] and len(R.samples) < 2))
+    o = api.read_namespace_tree(case["files"], case["root"], case.get("lookups"), allow_unregulated_fixed_port_id=case["allow"])
+    if o.error is None:
+        if case["valid"]:
+            R.outcome("accepted-valid")
+            R.outcome("multi-accepted")
+        else:
+            R.outcome("accepted-INVALID")
+            R.violation("invalid-accepted:multi:" + case["family"], "a definition that violates a static rule is rejected, whichever other definitions are read with it and in whatever order", case, observed="accepted", expected="InvalidDefinitionError")
+    elif not o.error["ide"]:
+        R.violation("rejection-not-InvalidDefinitionError:%s@%s" % (o.error["cls"], o.error.get("culprit")), "every rejection is an InvalidDefinitionError", case, observed=o.error)
+    elif case["valid"]:
+        R.outcome("rejected-VALID")
+        R.violation("valid-rejected:multi:" + case["family"], "definitions that satisfy the static rules are accepted", case, observed=o.error, expected="accepted")
+    else:
+        R.outcome("rejected-invalid")
+        R.outcome("multi-rejected")
+
+
 def plan(tier):
     build_index()
     shards = [{"kind": "single", "skeleton": s} for s in SKELETONS]
+    shards += [{"kind": "multi", "part": p, "parts": 8} for p in range(8)]
     for s in SKELETONS:
         for p in range(4):
             shards.append({"kind": "pairs", "skeleton": s, "part": p, "parts": 4})
@@ -389,6 +456,11 @@ def plan(tier):
 
 def cases(shard, tier):
     build_index()
+    if shard["kind"] == "multi":
+        for i, c in enumerate(multi_cases()):
+            if i % shard["parts"] == shard["part"]:
+                yield c
+        return
     sk = shard["skeleton"]
     S0 = SKELETONS[sk]()
     if shard["kind"] == "single":
@@ -427,6 +499,8 @@ def hash_stable(s: str) -> int:
 
 def check_case(case, R: engine.Acc):
     build_index()
+    if case.get("kind") == "multi":
+        return check_multi(case, R)
     S = SKELETONS[case["skeleton"]]()
     insts = [BY_NAME[n] for n in case["instances"]]
     # mode/extent instances read the attribute list: apply them last
@@ -461,7 +535,7 @@ def check_case(case, R: engine.Acc):
 
 
 def finish(tier, M):
-    need = ["accepted-valid", "rejected-invalid"]
+    need = ["accepted-valid", "rejected-invalid", "multi-accepted", "multi-rejected"]
     miss = [n for n in need if not M.hist.get(n)]
     if miss:
         raise engine.Vacuous("outcome classes not seen: %s" % miss)
